@@ -72,6 +72,16 @@ def shapes(tier):
     return out
 
 
+def swap_tags(shape):
+    """the same shape with the tags x and y exchanged"""
+    def sw(item):
+        tag, body = item
+        t2 = {"x": "y", "y": "x"}.get(tag, tag)
+        return (t2, [sw(b) for b in body]) if isinstance(body, list) else (t2, body)
+
+    return [sw(it) for it in shape]
+
+
 def instantiate(shape, mode):
     """-> (markup for urwid, [(glyph string, tag)] in text order). Unique glyphs; None if the mode lacks a character class."""
     ni = iter(NARROW_POOL)
@@ -231,6 +241,31 @@ def check_markup(ctx: Ctx, mode, shape, width, wrap, align):
               "empty-run" if '""' in repr(shape).replace("''", '""') else "")
     if shown:
         ctx.distinct("nontrivial", (1, mode, repr(shape), width, wrap, align))
+    # the same widget given the same characters with other tags (the first canvas still alive): the new tags show
+    shape2 = swap_tags(shape)
+    if shape2 != shape:
+        inst2 = instantiate(shape2, mode)
+        if inst2 is not None and "".join(c for c, _ in inst2[1]) == want_text:
+            markup2, chars2 = inst2
+            tag2 = {c: tag for c, tag in chars2 if c not in (" ", "\n") and W.cwidth(c) > 0}
+            try:
+                t.set_text(markup2)
+                rows2 = [list(r) for r in t.render((width,)).content()]
+                bad = None
+                for y, row in enumerate(rows2):
+                    for ch, a, w in decode_row(row, codec, mode):
+                        if w and ch in tag2 and a != tag2[ch]:
+                            bad = (y, ch, a, tag2[ch])
+                            break
+                    if bad:
+                        break
+                if bad:
+                    V("innermost", f"after set_text() with the same characters and other tags ({markup2!r} after {markup!r}): row {bad[0]} shows {bad[1]!r} with {bad[2]!r}, its tag is {bad[3]!r}", "retagged")
+            except UnicodeDecodeError:
+                pass
+            except Exception as e:
+                V("markup-raises", f"set_text({markup2!r}) / render raised {type(e).__name__}: {e}", site=exc_site(e))
+            t.set_text(markup)
     # exact judgement through the layout structure for untrimmed lines: padding cells carry None, text spaces their tag
     if mode != "utf8" or wrap in ("clip", "ellipsis"):
         return  # clipped lines are trimmed at render time: only the glyph rule above applies
